@@ -1127,6 +1127,15 @@ def wl_reflections(run, rng, idx):
     run.note_class(*sig)
     if route == "ideal-points":
         P = c15.rand_ideal_points(rng, n, n)
+        if idx % 2:
+            # ideal points are projective data: representatives in either nappe of
+            # the light cone and of any scale, row by row (eigenvector routines such
+            # as Isometry.axis() return them like that).  Seeded change C02-r4-1:
+            # Gram-Schmidt taking the sign of each row's norm from the form's diagonal.
+            P = P * (rng.choice([-1.0, 1.0], size=(n, 1)) * np.exp(rng.uniform(np.log(0.3), np.log(3.0), size=(n, 1))))
+            if np.all(P[:, 0] > 0) or np.all(P[:, 0] < 0):
+                P[int(rng.integers(n))] *= -1.0
+            case["ideal_point_representatives"] = "mixed nappes"
         case["ideal_points"] = P
         W = Geodesic(P.copy()) if n == 2 else Subspace(P.copy())
     elif route == "full-data-rescaled":
